@@ -158,12 +158,18 @@ def build_targets(case):
 
         return [afn, afn], [sfn, sfn], alog, slog, norm, 0
     if kind == "method":
-        class A:
+        class Falsy:
+            """the second instance is falsy (empty container-like): binding must not depend on truthiness"""
+
+            def __bool__(self):
+                return self.tag != "inst1"
+
+        class A(Falsy):
             @adeco
             async def m(self, *args, **kwargs):
                 return body(alog, (self.tag,) + args, kwargs)
 
-        class S:
+        class S(Falsy):
             @sdeco
             def m(self, *args, **kwargs):
                 return body(slog, (self.tag,) + args, kwargs)
